@@ -139,3 +139,89 @@ def release_guard_preds(sem, vis, key, readers):
         return f[0] == "truth" and f[2] is False and f[1].op == "field" and f[1].info[0] == "released" and is_entry(f[1].args[0])
 
     return {"exists": exists, "time <= now - unbonding_period": matured, "not released": unreleased}
+
+
+# ----------------------------------------------------------------------------------------
+# pricing paths (C02 - C06): structural roles of the values that appear in pricing formulas
+
+def resync_fns(prog, sem):
+    """functions that persist the re-synchronised State and return it (today: `slashing`)"""
+    out = set()
+    for b in prog.fn_bodies(crate="basset_sei_hub"):
+        if b.kind == "closure" or "basset::hub::State" not in (b.ret_ty or ""):
+            continue
+        be = sem.w.be(b)
+        if any(cell == STATE and kind == "write" for (bb, kind, cell, key, val, e) in sem.storage_sites(be)):
+            out.add(b.path)
+    return out
+
+
+def recompute_fns(prog, sem):
+    """functions that compute the re-synchronised State from the delegations without saving it"""
+    out = set()
+    for b in prog.fn_bodies(crate="basset_sei_hub"):
+        if b.kind == "closure" or "basset::hub::State" not in (b.ret_ty or ""):
+            continue
+        for blk in b.calls():
+            if blk.term.callee.path.endswith("query_all_delegations") or "query_all_delegations" in blk.term.callee.path:
+                out.add(b.path)
+    return out
+
+
+class Roles:
+    def __init__(self, prog, sem):
+        self.prog = prog
+        self.sem = sem
+        self.w = sem.w
+        self.resync = resync_fns(prog, sem) | recompute_fns(prog, sem)
+
+    def role(self, e):
+        """structural role of a leaf value in a pricing formula, or None"""
+        w, sem = self.w, self.sem
+        x = w.ident(e, expand_ws=False)
+        if x.op == "field":
+            b = x.args[0]
+            if b.op == "proj":
+                b = b.args[0]
+            if b.op == "call" and b.info in self.resync:
+                return ("state", x.info[0])
+            if b.op == "param" and b.info[3].endswith("basset::hub::State"):
+                return ("state", x.info[0])
+        l = sem.label_nd(e)
+        if l is None and x.op == "call" and w.callee_body(x) is not None:
+            from ..expr import E
+            l = sem.label_nd(E("proj", (x,), "ok"))
+        if l is not None:
+            if l[0] == "stored":
+                short = {PARAMS: "params", BATCH: "batch", STATE: "state_raw", HUBCFG: "config"}.get(l[1])
+                if short and len(l[3]) == 1:
+                    return (short, l[3][0])
+            if l[0] == "query" and l[2] and l[2].endswith("Cw20QueryMsg") and l[3] == "TokenInfo" and l[4] == ("total_supply",):
+                for tk, tl in TOKENS.items():
+                    if l[1] == tl:
+                        return ("supply", tk)
+            if l[0] == "param" and l[4][-1:] == ("amount",) and "Receive" not in l[2] and l[4][:1] == ("0",):
+                return ("amount",)
+            if l[0] == "param" and l[4] == ("0", "amount"):
+                return ("amount",)
+            if l[0] == "param" and l[4] == ("amount",):
+                return ("amount",)
+            if l[0] == "info" and l[1] == "funds":
+                return ("payment",) + tuple(l[2][-1:]) if len(l) > 2 and l[2] else ("payment",)
+            if l[0] == "const":
+                return ("const", l[2] if len(l) > 2 else l[1])
+        # the single coin selected from info.funds
+        if x.op == "field" and x.info[0] in ("amount", "denom"):
+            b = w.ident(x.args[0], expand_ws=False)
+            if b.op == "call" and b.info.endswith("Iterator::find"):
+                src = sem.label(b.args[0])
+                if src == ("info", "funds"):
+                    return ("payment", x.info[0])
+        return None
+
+    def flatten(self, e, op="Add"):
+        """operands of a (left/right nested) sum"""
+        x = self.w.ident(e, expand_ws=False)
+        if x.op == "bin" and x.info == op:
+            return self.flatten(x.args[0], op) + self.flatten(x.args[1], op)
+        return [x]
